@@ -44,13 +44,26 @@ def _fn_body(rel, fn):
         k += 1
 
 
-def stubs_for(texts):
+def stubs_for(texts, uf=False, skip=()):
     """kani::stub attributes for exactly the modelled intrinsics that occur in the given source texts.
-    (All models at once exceed rustc's attribute-expansion recursion limit, and the crate root cannot be edited.)"""
+    (All models at once exceed rustc's attribute-expansion recursion limit, and the crate root cannot be edited.)
+    uf=True: MULPS / DIVPS get the uninterpreted-lane-function models (f32 kernels only, see simd_models.rs)."""
     used = set()
     for t in texts:
         used |= set(re.findall(r"\b_(mm(?:256)?_\w+)", t))
-    return "".join("    #[kani::stub(core::arch::x86_64::_%s, crate::fv_simd::%s)]\n" % (m, m) for m in MODELS if m in used)
+    out = []
+    for m in MODELS:
+        if m in used and m not in skip:
+            tgt = "crate::fv_simd::uf::uf_%s" % m if uf and m in UF_MODELS else "crate::fv_simd::%s" % m
+            out.append("    #[kani::stub(core::arch::x86_64::_%s, %s)]\n" % (m, tgt))
+    return "".join(out)
+
+
+UF_MODELS = ("mm_mul_ps", "mm_div_ps", "mm256_mul_ps", "mm256_div_ps")
+# The u8 kernels divide the constant 65280 by alpha (0 ..= 255 as f32): Kani executes _mm_div_ps / _mm256_div_ps itself (simd_div) and no
+# NaN can arise (x / 0 = inf), so no model is substituted there - one assumption less, and the AVX2 row harnesses stay below the
+# number of stub attributes rustc can expand (about 15).  The u16 kernels need the model: they compute 0 * 65535 / 0 = NaN on purpose.
+U8_NATIVE = ("mm_div_ps", "mm256_div_ps")
 
 FV_SIMD = dict(file="src/lib.rs", name="fv_simd", vis="pub(crate) ", code=MODEL_SRC)
 
@@ -91,7 +104,7 @@ def int_a7(d, isa):
     n = npx * nc
     F = "src/alpha/%s/%s.rs" % (d, isa)
     k = dict(d=d, isa=isa, ty=ty, comp=comp, nc=nc, M=M, fmul=fmul, fdiv=fdiv, npx=npx, vt=vt, n=n, last=nc - 1,
-             stubs_m=stubs_for([_fn_body(F, fmul)]), stubs_d=stubs_for([_fn_body(F, fdiv)]),
+             stubs_m=stubs_for([_fn_body(F, fmul)]), stubs_d=stubs_for([_fn_body(F, fdiv)], skip=U8_NATIVE if comp == "u8" else ()),
              nat="crate::alpha::%s::native" % d, src=pixels_expr(ty, nc, npx, "i"), unw=max(npx + 2, 18))
     code = """
     use crate::pixels::%(ty)s;
@@ -186,11 +199,12 @@ F32_COMMON = """
 
     /// identical IEEE-754 result: same bits, or both NaN (payloads are not compared)
     fn same(a: f32, b: f32) -> bool { a.to_bits() == b.to_bits() || (a.is_nan() && b.is_nan()) }
+    const VALS: [f32; 12] = [0.0, -0.0, 1.0, 0.5, 0.75, 3.0, -2.5, 1.0e-40, 3.4e38, f32::INFINITY, f32::NAN, 0.1];
 """
 
 
 def flt_call(d, isa, fn, npx, nc):
-    """statement that runs the per-vector function `fn` on the pixels held in i: [f32; npx*nc], writing `out`"""
+    """statement that runs the per-vector function `fn` on the pixels held in i: [f32; npx*nc] / src, writing `out`"""
     vt, lanes = ("__m128", 4) if isa == "sse4" else ("__m256", 8)
     if d == "f32x2":
         vec = lambda k: "transmute::<[f32; %d], %s>([%s])" % (lanes, vt, ", ".join("i[%d]" % (k * lanes + j) for j in range(lanes)))
@@ -207,71 +221,295 @@ def flt_a7(d, isa):
     helpers = [] if d == "f32x2" else [_fn_body(F, "load_4_pixels" if isa == "sse4" else "load_8_pixels"),
                                        _fn_body(F, "store_4_pixels" if isa == "sse4" else "store_8_pixels"), _fn_body(F, "cols_into_rows")]
     k = dict(d=d, isa=isa, ty=ty, nc=nc, npx=npx, n=n, last=nc - 1, nat="crate::alpha::%s::native" % d,
-             src=pixels_expr(ty, nc, npx, "i"), unw=max(npx + 2, 18),
-             stubs_m=stubs_for([_fn_body(F, fmul)] + helpers), stubs_d=stubs_for([_fn_body(F, fdiv)] + helpers),
-             call_m=flt_call(d, isa, fmul, npx, nc), call_d=flt_call(d, isa, fdiv, npx, nc))
+             src=pixels_expr(ty, nc, npx, "i"), napp=npx * (nc - 1))
     code = F32_COMMON % k
-    for op, stubs, call in (("multiply", k["stubs_m"], k["call_m"]), ("divide", k["stubs_d"], k["call_d"])):
-        kk = dict(k, op=op, stubs=stubs, call=call)
+    hs = []
+    for op, fn in (("multiply", fmul), ("divide", fdiv)):
+        texts = [_fn_body(F, fn)] + helpers
+        kk = dict(k, op=op, fn=fn, stubs_uf=stubs_for(texts, uf=True), stubs=stubs_for(texts), call=flt_call(d, isa, fn, npx, nc),
+                  ufop="mul" if op == "multiply" else "div", giter=(144 + npx - 1) // npx, gunw=max((144 + npx - 1) // npx, 18) + 2,
+                  nangen="(cv.is_infinite() && a == 0.0) || (cv == 0.0 && a.is_infinite())" if op == "multiply" else
+                         "a.is_infinite()" if d == "f32x2" else
+                         "a.is_infinite() || (a != 0.0 && cv == 0.0 && (1.0 / a).is_infinite())",
+                  want="crate::fv_simd::uf::mul(cv, a).to_bits()" if op == "multiply" else
+                       "{ let q = crate::fv_simd::uf::div(cv, a).to_bits(); if a == 0.0 { 0u32 } else { q } }")  # unconditional application: keeps the table size concrete
         code += """
+    // complete: the lane operation of %(ufop)sps is an uninterpreted function F (see simd_models.rs, mod uf)
     #[kani::proof]
-    #[kani::unwind(%(unw)d)]
-%(stubs)s    fn a7_%(d)s_%(isa)s_%(op)s() {
+    #[kani::unwind(66)]
+%(stubs_uf)s    fn a7_%(d)s_%(isa)s_%(op)s() {
         let i: [f32; %(n)d] = kani::any();
         let src: [%(ty)s; %(npx)d] = %(src)s;
         let mut out = [%(ty)s::new([0.; %(nc)d]); %(npx)d];
         %(call)s
-        let mut want = [%(ty)s::new([0.; %(nc)d]); %(npx)d];
-        %(nat)s::%(op)s_alpha_row(&src, &mut want);
         kani::cover!(i[%(last)d] == 0.0 && i[0] > 0.0);
         kani::cover!(i[%(n)d - 1] > 0.0 && i[%(n)d - %(nc)d] > i[%(n)d - 1]);
+        // the kernel applied F exactly once per colour lane
+        assert!(unsafe { crate::fv_simd::uf::MUL.n + crate::fv_simd::uf::DIV.n } == %(napp)d);
         let mut p = 0;
         while p < %(npx)d {
+            let a = i[p * %(nc)d + %(last)d];
             let mut c = 0;
             while c < %(last)d {
-                assert!(same(out[p].0[c], want[p].0[c]));
+                let cv = i[p * %(nc)d + c];
+                let want: u32 = %(want)s;
+                assert!(out[p].0[c].to_bits() == want);
                 c += 1;
             }
-            assert!(out[p].0[%(last)d].to_bits() == i[p * %(nc)d + %(last)d].to_bits());
+            assert!(out[p].0[%(last)d].to_bits() == a.to_bits());
             p += 1;
         }
     }
+
+    // bounded: real MULPS/DIVPS models against the real native function on the 144 (colour, alpha) pairs of VALS x VALS
+    #[kani::proof]
+    #[kani::unwind(%(gunw)d)]
+%(stubs)s    fn a7_%(d)s_%(isa)s_%(op)s_native_grid() {
+        let mut k = 0;
+        while k < %(giter)d {
+            let mut i = [0f32; %(n)d];
+            let mut p = 0;
+            while p < %(npx)d {
+                let idx = (k * %(npx)d + p) %% 144;
+                let mut c = 0;
+                while c < %(last)d { i[p * %(nc)d + c] = VALS[(idx / 12 + 5 * c) %% 12]; c += 1; }
+                i[p * %(nc)d + %(last)d] = VALS[idx %% 12];
+                p += 1;
+            }
+            let src: [%(ty)s; %(npx)d] = %(src)s;
+            let mut out = [%(ty)s::new([9.; %(nc)d]); %(npx)d];
+            %(call)s
+            let mut p = 0;
+            while p < %(npx)d {
+                let a = i[p * %(nc)d + %(last)d];
+                // Kani attaches a NaN check to every `*` and `/` of the native code: pixels on which the native arithmetic itself
+                // creates a NaN (0 * inf, inf / inf) cannot be executed there and are skipped
+                let mut skip = false;
+                let mut c = 0;
+                while c < %(last)d { let cv = i[p * %(nc)d + c]; skip = skip || (%(nangen)s); c += 1; }
+                if !skip {
+                    let mut want = [%(ty)s::new([9.; %(nc)d])];
+                    %(nat)s::%(op)s_alpha_row(&src[p..p + 1], &mut want);
+                    let mut c = 0;
+                    while c < %(last)d {
+                        assert!(same(out[p].0[c], want[0].0[c]));
+                        c += 1;
+                    }
+                }
+                assert!(out[p].0[%(last)d].to_bits() == a.to_bits());
+                p += 1;
+            }
+            k += 1;
+        }
+        kani::cover!(true);
+    }
 """ % kk
-    hs = [dict(name="a7_%s_%s_%s" % (d, isa, op), kind="complete", covers=2, timeout=1800,
-               claim="%s %s %s: for all f32 inputs (incl. NaN, inf, -0, subnormals) of %d pixels every colour lane has the same bits as native::%s_alpha_row "
-                     "(or both are NaN)%s; alpha lanes keep the input bits"
-                     % (ty, isa, fn, npx, op, ", alpha == +-0 gives +0" if op == "divide" else ""))
-          for op, fn in (("multiply", fmul), ("divide", fdiv))]
+        hs.append(dict(name="a7_%s_%s_%s" % (d, isa, op), kind="complete", covers=2, timeout=900,
+                       claim="%s %s %s: for all f32 inputs of %d pixels (NaN, inf, -0, subnormals included) and for EVERY lane function F in place of %sPS, "
+                             "each colour lane is F(colour, alpha) of its own pixel%s, F is applied exactly once per colour lane, alpha lanes keep the input bits; "
+                             "with F = the IEEE operation of the E4 model this is the C06 oracle c%sa"
+                             % (ty, isa, fn, npx, "MUL" if op == "multiply" else "DIV", " and +0 when alpha == +-0" if op == "divide" else "",
+                                "*" if op == "multiply" else "/")))
+        hs.append(dict(name="a7_%s_%s_%s_native_grid" % (d, isa, op), kind="bounded", covers=1, timeout=900,
+                       bound="(colour, alpha) ranges over the 12 x 12 pairs of {0, -0, 1, .5, .75, 3, -2.5, 1e-40 (subnormal), 3.4e38, inf, NaN, .1} "
+                             "distributed over the pixel positions (concrete values: SAT cannot prove two symbolic binary32 dividers equivalent - one pair: no answer in 13 min); "
+                             "pairs on which Kani's NaN check fires inside the native code are not compared (0*inf; any division by +-inf, which CBMC flags although only inf/inf is a NaN; "
+                             "F32x4 only: colour 0 with a subnormal alpha, where native computes 0 * (1/alpha) = 0 * inf = NaN but DIVPS gives 0)",
+                       claim="%s %s %s with the real MULPS/DIVPS models: colour lanes bit-identical (or both NaN) to native::%s_alpha_row, alpha lanes keep the input bits"
+                             % (ty, isa, fn, op)))
+    return code, hs
+
+
+
+MAX_STUBS = 12  # measured: 13 kani::stub attributes (+ proof + unwind) on one harness exceed rustc's attribute-expansion recursion limit
+
+
+def a8_helpers(d, isa):
+    """encode / decode a pixel as the key of the uninterpreted pixel function G, G itself, and the stand-ins that apply G pixel-wise:
+    one for the per-vector functions of this file, one pair for the portable row functions."""
+    if d in INT:
+        ty, comp, nc, _ = INT[d]
+        bits = 8 if comp == "u8" else 16
+        per = 32 // bits
+        enc = "[%s]" % ", ".join(" | ".join("(p.0[%d] as u32) << %d" % (c, (c % per) * bits) for c in range(w * per, min(nc, (w + 1) * per))) or "0"
+                                 for w in range(4))
+        dec = "%s::new([%s])" % (ty, ", ".join("(k[%d] >> %d) as %s" % (c // per, (c % per) * bits, comp) for c in range(nc)))
+        zero, canary = "0", "0x5a"
+    else:
+        ty, nc = FLT[d]
+        comp = "f32"
+        enc = "[%s]" % ", ".join("p.0[%d].to_bits()" % c if c < nc else "0" for c in range(4))
+        dec = "%s::new([%s])" % (ty, ", ".join("f32::from_bits(k[%d])" % c for c in range(nc)))
+        zero, canary = "0.", "9."
+    fmul, fdiv, npx = VEC[d][isa]
+    k = dict(ty=ty, comp=comp, nc=nc, enc=enc, dec=dec, npx=npx, n=npx * nc, zero=zero, canary=canary)
+    code = """
+    use crate::pixels::%(ty)s;
+    use core::mem::transmute;
+
+    fn enc(p: %(ty)s) -> [u32; 4] { %(enc)s }
+    fn dec(k: [u32; 4]) -> %(ty)s { %(dec)s }
+    /// the stand-in per-pixel function G_K(p) = p xor K, K arbitrary (simd_models.rs, mod uf)
+    fn g(p: %(ty)s) -> %(ty)s { dec(crate::fv_simd::uf::gk(enc(p))) }
+    /// stand-ins for native::*_alpha_row / *_alpha_row_inplace: G on every pixel (what the portable loops do with the pixel function)
+    pub(crate) fn nat_row(src: &[%(ty)s], dst: &mut [%(ty)s]) { for (s, d) in src.iter().zip(dst) { *d = g(*s); } }
+    pub(crate) fn nat_row_inplace(row: &mut [%(ty)s]) { for p in row.iter_mut() { *p = g(*p); } }
+""" % k
+    if d in INT:
+        k["vt"] = "__m128i" if isa == "sse4" else "__m256i"
+        k["px"] = "%s::new([%s])" % (ty, ", ".join("i[p * %d + %d]" % (nc, c) for c in range(nc)))
+        code += """
+    /// stand-in for the per-vector functions of this file: G on each of the %(npx)d pixels of the vector
+    pub(crate) unsafe fn pv(v: %(vt)s) -> %(vt)s {
+        let i: [%(comp)s; %(n)d] = transmute(v);
+        let mut o = [0 as %(comp)s; %(n)d];
+        let mut p = 0;
+        while p < %(npx)d {
+            let q = g(%(px)s);
+            let mut c = 0;
+            while c < %(nc)d { o[p * %(nc)d + c] = q.0[c]; c += 1; }
+            p += 1;
+        }
+        transmute(o)
+    }
+""" % k
+    elif d == "f32x2":
+        k["vt"], k["lanes"] = ("__m128", 4) if isa == "sse4" else ("__m256", 8)
+        code += """
+    /// stand-in for the per-vector functions of this file: G on each of the %(npx)d pixels held by the two vectors, written to dst_chunk
+    pub(crate) unsafe fn pv(a: %(vt)s, b: %(vt)s, dst_chunk: &mut [%(ty)s]) {
+        let a: [f32; %(lanes)d] = transmute(a);
+        let b: [f32; %(lanes)d] = transmute(b);
+        let mut p = 0;
+        while p < %(npx)d / 2 {
+            dst_chunk[p] = g(%(ty)s::new([a[2 * p], a[2 * p + 1]]));
+            dst_chunk[p + %(npx)d / 2] = g(%(ty)s::new([b[2 * p], b[2 * p + 1]]));
+            p += 1;
+        }
+    }
+""" % k
+    else:
+        k["vt"] = "__m128" if isa == "sse4" else "__m256"
+        code += """
+    /// stand-in for the per-vector functions of this file: the kernel's own store_%(npx)d_pixels turns the 4 component vectors back into
+    /// %(npx)d pixels (load/store are inverse by A7), then G on each of them
+    pub(crate) unsafe fn pv(pixels: [%(vt)s; 4], dst_chunk: &mut [%(ty)s]) {
+        let mut tmp = [%(ty)s::new([0.; 4]); %(npx)d];
+        store_%(npx)d_pixels(pixels, &mut tmp);
+        let mut p = 0;
+        while p < %(npx)d { dst_chunk[p] = g(tmp[p]); p += 1; }
+    }
+""" % k
+    return code, k
+
+
+def a8(d, isa):
+    code, k = a8_helpers(d, isa)
+    ty, nc, L = k["ty"], k["nc"], k["npx"]
+    maxn = 2 * L + 1
+    hs = []
+    for op in ("multiply", "divide"):
+        # what the drivers of this operation can reach
+        F = "src/alpha/%s/%s.rs" % (d, isa)
+        bodies = [_fn_body(F, "%s_alpha_row" % op), _fn_body(F, "%s_alpha_row_inplace" % op)]
+        stubs = ["crate::alpha::%s::%s::%s, pv" % (d, isa, VEC[d][isa][0 if op == "multiply" else 1])]
+        hand_over = isa == "avx2" and any("sse4::" in t for t in bodies)
+        if hand_over:
+            S = "src/alpha/%s/sse4.rs" % d
+            bodies += [_fn_body(S, "%s_alpha_row" % op), _fn_body(S, "%s_alpha_row_inplace" % op)]
+            stubs.append("crate::alpha::%s::sse4::%s, crate::alpha::%s::sse4::fv_a8::pv" % (d, VEC[d]["sse4"][0 if op == "multiply" else 1], d))
+        for f in sorted(set(re.findall(r"\bnative::(\w+)", "".join(bodies)))):
+            stubs.append("crate::alpha::%s::native::%s, %s" % (d, f, "nat_row_inplace" if f.endswith("_inplace") else "nat_row"))
+        kk = dict(k, d=d, isa=isa, op=op, maxn=maxn, L=L, unw=maxn + L + 4,
+                  stubs="".join("    #[kani::stub(%s)]\n" % t for t in stubs),
+                  raw="[[%s; %d]; MAXN]" % (k["comp"], nc))
+        code += """
+    #[kani::proof]
+    #[kani::unwind(%(unw)d)]
+%(stubs)s    fn a8_%(d)s_%(isa)s_%(op)s() {
+        const MAXN: usize = %(maxn)d;
+        let raw: %(raw)s = kani::any(); // symbolic contents
+        let k: [u32; 4] = kani::any(); // G = G_K for an arbitrary K
+        crate::fv_simd::uf::gk_set(k);
+        kani::cover!(k[0] != 0);
+        let mut n = 0;
+        while n <= MAXN {
+            // the row is the LAST n pixels of its allocation: any access behind the row is out of bounds for Kani;
+            // the pixels before it are checked to be untouched
+            let off = MAXN - n;
+            let mut src = [%(ty)s::new([%(zero)s; %(nc)d]); MAXN];
+            let mut p = 0;
+            while p < MAXN { src[p] = %(ty)s::new(raw[p]); p += 1; }
+            let mut dst = [%(ty)s::new([%(canary)s; %(nc)d]); MAXN];
+            let mut inp = src;
+            unsafe { %(op)s_alpha_row(&src[off..], &mut dst[off..]) };
+            unsafe { %(op)s_alpha_row_inplace(&mut inp[off..]) };
+            let mut p = 0;
+            while p < MAXN {
+                if p < off {
+                    assert!(crate::fv_simd::uf::keq(enc(dst[p]), enc(%(ty)s::new([%(canary)s; %(nc)d]))));
+                    assert!(crate::fv_simd::uf::keq(enc(inp[p]), enc(src[p])));
+                } else {
+                    let want = enc(g(src[p]));
+                    assert!(crate::fv_simd::uf::keq(enc(dst[p]), want));
+                    assert!(crate::fv_simd::uf::keq(enc(inp[p]), want));
+                }
+                assert!(crate::fv_simd::uf::keq(enc(src[p]), enc(%(ty)s::new(raw[p]))));
+                p += 1;
+            }
+            n += 1;
+        }
+        kani::cover!(true);
+    }
+""" % kk
+        hs.append(dict(name="a8_%s_%s_%s" % (d, isa, op), kind="bounded", covers=2, timeout=1800,
+                       bound="rows of 0 ..= %d pixels (2 x %d lanes + 1), every length, symbolic contents" % (maxn, L),
+                       claim="%s %s %s_alpha_row and %s_alpha_row_inplace (real driver code: chunking, pre-reading loop, zero-padded remainder buffers%s): "
+                             "for every stand-in pixel function G_K(p) = p xor K (K arbitrary): if the per-vector function%s and the portable row functions apply G_K to each of their pixels, "
+                             "the driver leaves G_K(pixel) in every pixel of the row - main loop, remainder and tail; in-place == two-image; src untouched; "
+                             "the row ends at the end of its allocation (no access behind it) and the pixels before it stay untouched.  With G = the per-pixel function established by A7 this is 'native per pixel'"
+                             % (ty, isa, op, op, ", AVX2 -> SSE4.1 hand-over" if hand_over else "", "s (AVX2 and SSE4.1)" if hand_over else "")))
     return code, hs
 
 
 def build(enabled):
-    mods, hs7, fns7 = [FV_SIMD], [], []
+    mods7, hs7, fns7 = [FV_SIMD], [], []
+    mods8, hs8, fns8 = [FV_SIMD], [], []
     for d in ORDER:
         for isa in ("sse4", "avx2"):
             if (d, isa) not in enabled:
                 continue
             F = "src/alpha/%s/%s.rs" % (d, isa)
-            if d in INT:
-                code, hs = int_a7(d, isa)
-            else:
-                code, hs = flt_a7(d, isa)
-            mods.append(dict(file=F, name="fv_a7", code=code))
+            code, hs = int_a7(d, isa) if d in INT else flt_a7(d, isa)
+            mods7.append(dict(file=F, name="fv_a7", code=code))
             hs7 += hs
             fns7 += [dict(file=F, fn=VEC[d][isa][0]), dict(file=F, fn=VEC[d][isa][1])]
-    return mods, hs7, fns7
+            code, hs = a8(d, isa)
+            mods8.append(dict(file=F, name="fv_a8", vis="pub(crate) ", code=code))
+            hs8 += hs
+            fns8 += [dict(file=F, fn=f) for f in ("multiply_alpha_row", "multiply_alpha_row_inplace", "divide_alpha_row", "divide_alpha_row_inplace")]
+    return (mods7, hs7, fns7), (mods8, hs8, fns8)
 
 
 ENABLED = [(d, isa) for d in ORDER for isa in ("sse4", "avx2")]
-_mods7, _hs7, _fns7 = build(ENABLED)
+(_mods7, _hs7, _fns7), (_mods8, _hs8, _fns8) = build(ENABLED)
 
 ASSUME = ["E4: the instruction models of contracts/simd_models.rs (%d models: %s) are the semantics of the x86 instructions; "
-          "cross-checked on the host CPU by tools/simd_model_selftest.sh, default MXCSR (round to nearest even)" % (len(MODELS), ", ".join("_" + m for m in MODELS)),
-          "intrinsics not listed run on Kani's own semantics of the std::arch implementation (loads/stores, set*, unpack*, shifts, and/or, casts)"]
+          "cross-checked on the host CPU by tools/simd_model_selftest.sh, default MXCSR (round to nearest even, no FTZ/DAZ)" % (len(MODELS), ", ".join("_" + m for m in MODELS)),
+          "intrinsics not listed run on Kani's own semantics of their std::arch implementation (loads/stores, set*, unpack*, shuffle_ps, shifts, and/or, casts)",
+          "f32 per-vector harnesses (complete): MULPS/DIVPS lane operation abstracted by an uninterpreted function (simd_models.rs mod uf); the link to the native f32 code is the bounded *_native_grid harness"]
 
 UNITS = [
     dict(id="A7",
          title="SIMD per-vector alpha kernels (SSE4.1, AVX2) == portable native.rs functions, every lane, all inputs; modulo E4 instruction models",
          assumptions=ASSUME,
          kani=dict(functions=_fns7, modules=_mods7, harnesses=_hs7)),
+    dict(id="A8",
+         title="SIMD alpha row drivers (SSE4.1, AVX2): main loop / remainder / tail == native per pixel for row lengths 0 ..= 2*lanes+1; modulo E4 instruction models",
+         assumptions=["compositional: the per-vector functions and the portable row functions are replaced (kani::stub) by an uninterpreted per-pixel "
+                      "function applied pixel-wise, G_K(p) = p xor K with K arbitrary (simd_models.rs mod uf); that they do act pixel-wise, as the native pixel function, is A7 / A4; "
+                      "that the drivers treat the pixel function as a black box and pixel values as opaque (so that G_K stands for any G) is by inspection of their text",
+                      "loads, stores and everything else in the drivers run on Kani's own semantics; no instruction model is involved",
+                      "rows of at most 2*lanes+1 pixels (two main-loop iterations, every remainder length, the AVX2 -> SSE4.1 -> native hand-over)"],
+         kani=dict(functions=_fns8, modules=_mods8, harnesses=_hs8)),
 ]
